@@ -48,4 +48,10 @@ def run(prog: Program, col: Collector, tier: str, refs: Optional[Refs] = None, c
     col.rule("R02.17", "fusing nested substitutions keeps every outer pair and hands the whole outer substitution to every inner value", floor=2)
     from . import c04
     c04._fusion(prog, col, refs, cat)
+    col.rule("R02.18", "blocks that are multiplied together in a substitution kernel are concatenated over the same sequence", floor=1)
+    c04._co_indexed_blocks(prog, col, refs, cat, c04._subs_collections(prog, refs, cat))
+    col.rule("R02.19", "composition of two slices: start, stop and step of the composed slice select exactly the composed index set", floor=1)
+    c04._slice_composition(prog, col, refs, cat)
+    col.rule("R02.20", "integrating against a Delta substitutes the points of the integrated names only", floor=1)
+    c04._delta_integrate(prog, col, refs, cat)
     return col
